@@ -13,6 +13,19 @@ func (w *World) Epilogue() {
 		return
 	}
 	w.step = len(w.Script) // epilogue steps are numbered after the script
+	// Resources that were ever mutated silently are reset once more at the end,
+	// whatever the reference service believes it has announced: a re-fetch that
+	// was answered with an error, or an answer the gateway had no use for, leaves
+	// both sides in doubt, and a final reset is what the protocol prescribes.
+	if len(w.Svc.everSilent) > 0 {
+		w.drainPending()
+		var names []string
+		for n := range w.Svc.everSilent {
+			names = append(names, jstr(n))
+		}
+		sort.Strings(names)
+		w.execEpilogue(Op{K: "sysreset", P: `{"resources":[` + strings.Join(names, ",") + `]}`})
+	}
 	for round := 0; round < 6; round++ {
 		w.drainPending()
 		if w.Failed != "" || w.Deadlock != "" {
